@@ -45,6 +45,25 @@ def run(ctx):
         # RDNs, repeated attribute types, unknown string kinds)
         import c03
         common.borrow_rules(rep, lambda: c03.check_import(cfg, crate, rep), "C03.", "C06.name")
+        # "carries the requested subject alternative names, key usages and extended key usages": issuance goes through the
+        # shared certificate writer; its extension block must be written exactly when something was requested and the
+        # three extensions must be written from the subject's own parameters
+        import c02
+
+        class _Ctx:
+            pass
+        n0, f0 = len(rep.obligations), len(rep.floors)
+        art = c02.check_schema(None, cfg, crate, rep)
+        if art.tbs is not None:
+            c02.check_guard(cfg, art, rep)
+        keep = [o for o in rep.obligations[n0:] if o["rule"] == "C02.guard" or any(k in o["key"] for k in ("oid:2.5.29.17", "oid:2.5.29.15", "oid:2.5.29.37", "/[3]/when")) or (not o["ok"] and "|tbs" in o["key"])]
+        del rep.obligations[n0:]
+        del rep.floors[f0:]
+        for o in keep:
+            o["key"] = o["key"].replace(o["rule"], "C06.cert", 1)
+            o["rule"] = "C06.cert"
+        rep.obligations.extend(keep)
+        rep.floor("C06.cert", "certificate writer nodes (%s)" % cfg, len(keep), 30)
 
 
 def verify(cfg, crate, body, I, rep, key):
